@@ -151,6 +151,9 @@ def run_replay(module: str, func: str, kwargs: dict, timeout: float = 120.0):
         return True, last
     if p.returncode == 0 and last.startswith("NOT-REPRODUCED"):
         return False, last
+    if p.returncode in (-11, 139):
+        # the real code crashed the interpreter (SIGSEGV) on this input
+        return True, f"REPRODUCED {module}.{func}({kwargs}) crashed the interpreter with SIGSEGV"
     return None, f"replay harness error rc={p.returncode}: {(p.stdout + p.stderr)[-600:]}"
 
 
@@ -355,6 +358,10 @@ def run_property(prop: str, tier: str, seed: int, only: str | None = None, verbo
                 entry["verdict"] = "vacuous"
             else:
                 nonexhaustive.append(sub.name)
+        elif st == "pre_unsat" and sub.kind == "chx" and excludes_for(parent):
+            # the whole obligation lies inside a listed known finding (its witness is replayed below)
+            entry["verdict"] = "excluded_by_known_finding"
+            discharged += 0
         elif st == "inconclusive":
             inconclusive.append((sub.name, r.get("message", "")))
         elif st == "cex":
